@@ -44,6 +44,8 @@ ITEMS = [
  # a single-character wildcard at the edge is no reason to leave out the modifier's own wildcard
  ("q1", ["contains"], "?a?"), ("q2", ["startswith"], "a?"), ("q3", ["endswith"], ["?a", "b"]),
  ("", ["neq"], "nkw"), ("", ["neq"], ["nk1", "nk2"]), ("", ["contains", "neq"], "nkc"),
+ # one algorithm, several values, negated AND all-linked (both at once)
+ ("Hashes", ["all", "neq"], ["MD5=aa11", "MD5=bb22"]), ("Hashes", ["neq", "all"], ["MD5=aa11", "MD5=bb22", "SHA1=cc33"]),
 ]
 KW = [["foo", "ba*r"], [1], ["single"], ["k1", 2]]
 out = ["----------------------------- MODULE RuleItems -----------------------------",
